@@ -2,7 +2,8 @@
    argv[1] = model:
      stdin: one case per line   B=<dec>;<obj>,<obj>,...|<op> <op> ...
        B      hash of the arena base: object k lives at address 8*(B+off_k)
-       obj    <k>:<off>[:<t>.<t>...]     id, word offset, ids its destructor deletes (in order)
+       obj    <k>:<off>[:<t>.<t>...[:<u>.<u>r...]]   id, word offset, ids its destructor deletes (in order),
+              ids it allocates afterwards (suffix r = alloc_root)
        ops    a<k> alloc   A<k> alloc_root   w<k> alloc_raw (no registry effect)
               d<k> del     x<k> del_raw (destructor runs)
               k[<w>.<w>...] words the stack scan will see from now on: <k> = address of
@@ -11,29 +12,36 @@
               Q  toggle brief dumps: the slot field becomes #<FNV-1a-32 of the slot text>
      output: steps separated by " | ", each
        <out>;<events>;<nslots>;<nitems>;<mitems>;<min>;<max>;<running>;<npending>;<slot>,<slot>..;<membits>
-       events  r<k> (GC_Rem issued while running) f<k> (finalised), in order of occurrence
+       events  r<k> (GC_Rem issued while running) f<k> (finalised) s<k>:<root> (registered from a
+               destructor) ! (outside the model's scope, see spawn_set), in order of occurrence
        slot    _  or  <home+1>:<k>:<root>:<marked>
        min/max word offsets relative to B, "-" when still at the initial value
    argv[1] = spec:
-     stdin: one line per case:  <step> <step> ...   step = "-" or events A<k>:<r> r<k> f<k>
+     stdin: one line per case:  <step> <step> ...   step = "-" or events A<k>:<r> r<k> f<k> s<k>:<r> !
             (what the IMPLEMENTATION did, as observed by the harness)
      output: per step the set the ledger function `led_list` of the Coq specification yields,
              sorted: <k>:<r>,<k>:<r>,...   steps separated by " | " *)
 let n_of_i i = n_of_int i
 let i_of_n n = int_of_n n
 
-type objs = { ids : int list; off : (int, n) Hashtbl.t; own : (int, int list) Hashtbl.t }
+type objs = { ids : int list; off : (int, n) Hashtbl.t; own : (int, int list) Hashtbl.t;
+              spw : (int, (int * bool) list) Hashtbl.t }
 
 let parse_objs s =
-  let o = { ids = []; off = Hashtbl.create 16; own = Hashtbl.create 16 } in
+  let o = { ids = []; off = Hashtbl.create 16; own = Hashtbl.create 16; spw = Hashtbl.create 16 } in
   let ids = List.map (fun spec ->
     match String.split_on_char ':' spec with
     | k :: off :: rest ->
       let k = int_of_string k in
       Hashtbl.replace o.off k (n_of_dec off);
+      let spawn_of u =
+        let n = String.length u in
+        if n > 0 && u.[n - 1] = 'r' then (int_of_string (String.sub u 0 (n - 1)), true) else (int_of_string u, false) in
       (match rest with
-       | [ts] -> Hashtbl.replace o.own k (List.map int_of_string (split_on '.' ts))
-       | _ -> Hashtbl.replace o.own k []);
+       | [ts] -> Hashtbl.replace o.own k (List.map int_of_string (split_on '.' ts)); Hashtbl.replace o.spw k []
+       | [ts; us] -> Hashtbl.replace o.own k (List.map int_of_string (split_on '.' ts));
+                     Hashtbl.replace o.spw k (List.map spawn_of (split_on '.' us))
+       | _ -> Hashtbl.replace o.own k []; Hashtbl.replace o.spw k []);
       k
     | _ -> failwith "bad obj") (split_on ',' s) in
   { o with ids = ids }
@@ -53,7 +61,8 @@ let model_case line =
     List.iter (fun k -> Hashtbl.replace rev (n_to_dec (addr k)) k) o.ids;
     let id_of p = match Hashtbl.find_opt rev (n_to_dec p) with Some k -> string_of_int k | None -> "X" in
     let ow = List.map (fun k -> (addr k, List.map addr (Hashtbl.find o.own k))) o.ids in
-    let step = rg_step ow rg_rem_fin rg_null_first in
+    let sp = List.map (fun k -> (addr k, List.map (fun (t, r) -> (addr t, r)) (Hashtbl.find o.spw k))) o.ids in
+    let step = rg_step ow sp rg_rem_fin rg_null_first in
     let out_s = function OOk -> "ok" | OBool b -> if b then "true" else "false"
                        | OCrash -> "CRASH" | OFuel -> "OUTOFFUEL" in
     let offs p = n_to_dec (n_sub (n_div p eight) b) in
@@ -68,7 +77,9 @@ let model_case line =
       let rec take l n = if n <= 0 then [] else match l with [] -> [] | x :: r -> x :: take r (n - 1) in
       let fresh = List.rev (take ev (List.length ev - nev_before)) in
       let es = String.concat "" (List.map (function
-        | EvRem p -> "r" ^ id_of p | EvFin p -> "f" ^ id_of p | _ -> "") fresh) in
+        | EvRem p -> "r" ^ id_of p | EvFin p -> "f" ^ id_of p
+        | EvSpawn (p, r) -> "s" ^ id_of p ^ ":" ^ (if r then "1" else "0")
+        | EvViol -> "!" | _ -> "") fresh) in
       let sl = slots g in
       let ss = List.map (function
         | None -> "_"
@@ -120,10 +131,12 @@ let parse_events s =
   let rec num i = if i < n && s.[i] >= '0' && s.[i] <= '9' then num (i + 1) else i in
   let rec go i acc =
     if i >= n || s.[i] = '-' then List.rev acc else
+    if s.[i] = '!' then go (i + 1) acc else
     let j = num (i + 1) in
     let k = n_of_i (int_of_string (String.sub s (i + 1) (j - i - 1))) in
     match s.[i] with
     | 'A' -> let r = s.[j + 1] = '1' in go (j + 2) (EvAlloc (k, r) :: acc)
+    | 's' -> let r = s.[j + 1] = '1' in go (j + 2) (EvSpawn (k, r) :: acc)
     | 'r' -> go j (EvRem k :: acc)
     | 'f' -> go j (EvReclaim k :: acc)     (* a finalised object is no longer registered *)
     | _ -> failwith ("bad event in " ^ s) in
